@@ -9,7 +9,7 @@ import pykoop.lmi_regressors as lmi
 from .. import core, lmi_common as lc
 
 THEOREMS = ['Pk.C09.C09_contract', 'Pk.C09.C09_powers', 'Pk.C09.C09_eigen', 'Pk.C09.C09_dmdc',
-            'Pk.C09.C09_loop_inv', 'Pk.C09.C09_loop_counts', 'Pk.C09.C09_monotone',
+            'Pk.C09.C09_loop_inv', 'Pk.C09.C09_loop_counts', 'Pk.C09.C09_monotone', 'Pk.C09.C09_log_monotone',
             'PkLA.specLmiA_eq', 'PkLA.specLmiB_eq']
 
 
